@@ -313,4 +313,12 @@ qb_log_thread_stop(void)
 	(void)qb_thread_lock_destroy(logt_wthread_lock);
 	sem_destroy(&logt_print_finished);
 	sem_destroy(&logt_thread_start);
+
+	/* back to square one, the logging system may be initialised (and
+	 * the thread started) again */
+	logt_wthread_lock = NULL;
+	wthread_active = QB_FALSE;
+	wthread_should_exit = QB_FALSE;
+	logt_memory_used = 0;
+	logt_dropped_messages = 0;
 }
